@@ -89,3 +89,8 @@ claim("C17",
       "Decides that the first answering hook wins and no later hook is called, that Deny/Allow/Defer are mapped literally in the MAIL and RCPT handlers (hook's code and text, no state change on Deny; policy only under Defer; Allow bypasses policy), that the store-policy filter runs only without a hook answer, that every Lua call is protected and failures yield 'no answer', and that pooled Lua states are handed to one user at a time and returned exactly once. Lua semantics and script grammar are not decided.",
       "Trusts go/ssa; gopher-lua's Protect semantics.",
       "DESIGN.md section 4, C17")
+claim("C18",
+      "call-table check of the bluemonday policy construction (constant arguments), structural return check of sanitize.HTML, forward taint from tokenizer attribute values with html.EscapeString as sanitiser, allow-list lookup dominance and state-entry analysis of the CSS filter, parameter-use analysis of TextToHTML and of the UI handler",
+      "Decides the configuration and plumbing of the sanitiser for every path: the policy is UGCPolicy plus only table-listed, non-forbidden extensions; sanitize.HTML cannot return without both the style filter and policy.Sanitize; attribute values reach the output only escaped and style values only through the CSS filter; CSS identifiers are copied only under the allow-list lookup of their lower-cased name; TextToHTML escapes before anything else and inserts only constant markup; the UI handler uses the bodies only through these functions. Parser-differential bypasses and bluemonday internals are not decided.",
+      "Trusts go/ssa; bluemonday.UGCPolicy and html.EscapeString do what they document.",
+      "DESIGN.md section 4, C18")
